@@ -110,6 +110,7 @@ type refState struct {
 	outside    bool
 	negOff     bool // a remove used a negative index while negative indices are off (outside C13's domain)
 	nanOnArray bool // a remove used a non-numeric last token on an array (outside C13's domain)
+	nullSlack  int64
 }
 
 // step moves from container cur through one intermediate token; nil = unreachable.
@@ -481,9 +482,20 @@ func (s *refState) opCopy(op Op, total *int64, limit int64, sizeOf func(*JV) int
 		return eMissing
 	}
 	if sizeOf != nil {
-		*total += int64(sizeOf(v))
-		if limit > 0 && *total > limit {
-			return eCopyLimit
+		// a copied null may be counted as 0 or as 4 bytes: total is the lower bound, s.nullSlack the allowance
+		if v.K == JNull {
+			s.nullSlack += 4
+		} else {
+			*total += int64(sizeOf(v))
+		}
+		if limit > 0 {
+			if *total > limit {
+				return eCopyLimit
+			}
+			if *total+s.nullSlack > limit {
+				s.outside = true // either outcome is acceptable
+				return eOther
+			}
 		}
 	}
 	return s.add(con, last, v)
